@@ -99,6 +99,7 @@ void ed_norm_sim(ed_t *r, const ed_t *t, int n) {
 		fp_inv_sim(a, (const fp_t *)a, n);
 
 		for (int i = 0; i < n; i++) {
+			r[i]->coord = t[i]->coord;
 			fp_copy(r[i]->x, t[i]->x);
 			fp_copy(r[i]->y, t[i]->y);
 #if ED_ADD == EXTND
